@@ -146,7 +146,7 @@ def eof_rules(ctx, rid):
     ctx.check(rid, "GetVarint ImmediateFin iff offset==0", ok1, "GetVarint::poll returns ImmediateFin on a path where offset != 0: %s" % [path_sig(p)[0] for p in imm], where(gv))
     from rulelib import event_strs
     ok2 = bool(unx) and all(any(re.search(r"self\.offset != 0$", a) for a in path_sig(p)[0]) or
-                            any(re.match(r"^store \*?self\.offset := 1$", e) for e in event_strs(p)) for p in unx)
+                            any(re.match(r"^store self\.offset := 1$", e) for e in event_strs(p)) for p in unx)
     ctx.check(rid, "GetVarint UnexpectedFin only after first byte", ok2, "GetVarint::poll UnexpectedFin path not guarded by offset>0: %s" % [path_sig(p)[0] for p in unx], where(gv))
     gb = A.fn("<wtransport_proto::bytes::r#async::GetBuffer<R> as std::future::Future>::poll")
     ps = nonpanic(walk(gb))
